@@ -1,1 +1,1 @@
-
+import Generated.ShippedD
